@@ -276,7 +276,19 @@ func sourcesOfBound(pf *parserFacts, v ssa.Value, leaves map[*types.Var]string, 
 			rec(x.X, depth+1)
 		case *ssa.ChangeType:
 			rec(x.X, depth+1)
+		case *ssa.BinOp:
+			rec(x.X, depth+1)
+			rec(x.Y, depth+1)
 		case *ssa.UnOp:
+			// a field of a local struct read back (`devConfig.Defaults.Velocity == 0` after the literal was stored): what was
+			// stored into that field of that variable
+			if fa, ok := x.X.(*ssa.FieldAddr); ok && x.Op == token.MUL {
+				if root, path := fieldPathOf(fa); root != nil {
+					for _, st := range storesToPath(root, path) {
+						rec(st.Val, depth+1)
+					}
+				}
+			}
 			// local variable assigned in several places (spilled)
 			if a, ok := x.X.(*ssa.Alloc); ok {
 				for _, r := range *a.Referrers() {
@@ -1344,4 +1356,48 @@ func ruleNoSilentSkip(c *Ctx, pf *parserFacts, rule string) {
 	if n == 0 {
 		c.Trivial(rule, "table-loops", "-", "no loop over a table of the file that stores its entries directly (the conversion is delegated to callbacks): not judged by this rule")
 	}
+}
+
+// fieldPathOf: fa addresses root.f1.f2...: the local variable and the field indices.
+func fieldPathOf(fa *ssa.FieldAddr) (*ssa.Alloc, []int) {
+	var path []int
+	var cur ssa.Value = fa
+	for {
+		f, ok := cur.(*ssa.FieldAddr)
+		if !ok {
+			break
+		}
+		path = append([]int{f.Field}, path...)
+		cur = f.X
+	}
+	a, ok := cur.(*ssa.Alloc)
+	if !ok {
+		return nil, nil
+	}
+	return a, path
+}
+
+// storesToPath: the stores into root.f1.f2... (the same field path of the same variable), anywhere in the function.
+func storesToPath(root *ssa.Alloc, path []int) []*ssa.Store {
+	var out []*ssa.Store
+	var walk func(v ssa.Value, depth int)
+	walk = func(v ssa.Value, depth int) {
+		if v.Referrers() == nil {
+			return
+		}
+		for _, r := range *v.Referrers() {
+			switch x := r.(type) {
+			case *ssa.FieldAddr:
+				if depth < len(path) && x.X == v && x.Field == path[depth] {
+					walk(x, depth+1)
+				}
+			case *ssa.Store:
+				if depth == len(path) && x.Addr == v {
+					out = append(out, x)
+				}
+			}
+		}
+	}
+	walk(root, 0)
+	return out
 }
